@@ -362,6 +362,17 @@ def run(c):
             sx = abs(ps[0][0] * ps[0][1 + cc]) + abs(ps[1][0] * ps[1][1 + cc])
             sv = abs(ps[0][0] * ps[0][4 + cc]) + abs(ps[1][0] * ps[1][4 + cc])
             okm = okm and abs(p.m * gx - wx) <= 16 * EPS * sx and abs(p.m * gv - wv) <= 16 * EPS * sv
+        # energy bookkeeping: energy_offset = (KE_i + KE_j + U_ij [if one of them is active]) - KE_merged, by fsum
+        kei = 0.5 * ps[0][0] * (ps[0][4] ** 2 + ps[0][5] ** 2 + ps[0][6] ** 2)
+        kej = 0.5 * ps[1][0] * (ps[1][4] ** 2 + ps[1][5] ** 2 + ps[1][6] ** 2)
+        dd = math.sqrt((ps[0][1] - ps[1][1]) ** 2 + (ps[0][2] - ps[1][2]) ** 2 + (ps[0][3] - ps[1][3]) ** 2)
+        uij = -G * ps[0][0] * ps[1][0] / dd if pot else 0.0
+        vm = [math.fsum([ps[0][0] * ps[0][4 + cc], ps[1][0] * ps[1][4 + cc]]) / M for cc in range(3)]
+        kem = 0.5 * M * (vm[0] ** 2 + vm[1] ** 2 + vm[2] ** 2)
+        want_off = math.fsum([kei, kej, uij, -kem])
+        if not abs(sim.energy_offset - want_off) <= 64 * EPS * (abs(kei) + abs(kej) + abs(uij) + abs(kem)):
+            viol.append(("merge:offset", "energy_offset after a merge is %.17g, expected KE_i+KE_j+U_ij-KE_merged = %.17g" % (sim.energy_offset, want_off),
+                         dict(ps=ps, G=G, N_active=na, got=sim.energy_offset, want=want_off)))
         if not okm:
             viol.append(("merge:conserve", "merge does not conserve mass / momentum / centre of mass of the pair", dict(ps=ps, got=[p.m, p.x, p.y, p.z, p.vx, p.vy, p.vz])))
 
@@ -442,7 +453,9 @@ def run(c):
     nsteps = 1500 if c.thorough else 300
     ran = 0
     for ci, cf in enumerate(cfgs):
-        fams = [0, 1, 2, 3] if c.thorough else [ci % 2, 3 if cf["integrator"] in ("mercurius", "trace", "ias15", "bs") else 2]
+        # family 3 (a close planet pair) is inside the stable regime only for the schemes that resolve close encounters
+        enc_ok = cf["integrator"] in ("mercurius", "trace", "ias15", "bs")
+        fams = ([0, 1, 2] + ([3] if enc_ok else [])) if c.thorough else [ci % 2, 3 if enc_ok else 2]
         for fam in fams:
             rng = c.rng.fork()
             m0, bodies, G = gen_system(rng, fam)
